@@ -406,12 +406,36 @@ def hostile_phsf_archives():
 DECRYPT_CMDS = ("extract", "list-solid", "strip-keepsolid", "chmod-keepsolid", "migrate")
 
 
+def forced_phsf_archives():
+    """cost parameters at and beyond what the argon2 crate can take, and repeated parameters (the crate keeps the LAST
+    occurrence): the two repaired C07 defects (1232b70b: p = 2^29 overflows p*8 in u32, m = 2^32-1 asks for 4 TiB; e4c5abd3:
+    a guard that looks at the FIRST p only).  Never sampled away: a fixed entry of known_findings.txt suppresses nothing."""
+    salt = "c2FsdHNhbHRzYWx0"
+    strings = ["$argon2id$v=19$m=8,t=1,p=536870912$" + salt, "$argon2id$v=19$m=4294967295,t=1,p=1$" + salt,
+               "$argon2id$v=19$m=8,t=1,p=1,p=4294967295$" + salt, "$argon2id$v=19$m=8,t=1,p=1,p=536870912$" + salt,
+               "$argon2id$v=19$m=8,t=1,p=536870912,p=1$" + salt, "$argon2id$v=19$m=8,m=4294967295,t=1,p=1$" + salt,
+               "$argon2id$v=19$m=8,t=0,p=1$" + salt, "$argon2id$v=19$m=7,t=1,p=1$" + salt, "$argon2id$v=19$m=8,t=1,p=0$" + salt]
+    sig = b"\x89PNA\r\n\x1a\n"
+    head = sig + _chunk(b"AHED", bytes(8))
+    data = bytes(range(16)) + bytes(32)
+    out = []
+    for i, s in enumerate(strings):
+        enc, mode = 1 + i % 2, (i // 2) % 2
+        out.append(head + _chunk(b"FHED", bytes([0, 0, 0, 0, enc, mode]) + b"f") + _chunk(b"PHSF", s.encode()) + _chunk(b"FDAT", data)
+                   + _chunk(b"FEND", b"") + _chunk(b"AEND", b""))
+        if i % 3 == 0:
+            out.append(head + _chunk(b"SHED", bytes([0, 0, 0, enc, mode])) + _chunk(b"PHSF", s.encode()) + _chunk(b"SDAT", data)
+                       + _chunk(b"SEND", b"") + _chunk(b"AEND", b""))
+    return out
+
+
 def hostile_phsf_cli(c, limit=None):
     """every hostile key-derivation archive through the decrypting commands with a password, and through the library
     (harness `dump`, which opens every entry's reader): a panic (exit 101) or a hang is a violation of C07"""
     arch = hostile_phsf_archives()
     if limit:
         arch = random.Random(c.seed).sample(arch, min(limit, len(arch)))
+    arch = forced_phsf_archives() + arch
     runs = 0
     with cli.Sandbox("phsf") as sb:
         d = sb.path("h")
